@@ -60,6 +60,7 @@ def prc2(ctx, lib, prec_fn):
     def decides(leaves):
         return any(k[0] == "bin" and k[1] == "Lt" and k[2][0] == "call" and k[2][1] == prec_fn.path for l in leaves for k in l.facts)
     n_ok = 0
+    records = []
     work = list(sites)
     done = set()
     depth = {b.path: 0 for b in work}
@@ -112,39 +113,49 @@ def prc2(ctx, lib, prec_fn):
                   and k[2][0] == "call" and k[2][1] == prec_fn.path and k[3][0] == "call" and k[3][1] == prec_fn.path]
             singles = [(k, v.v) for k, v in l.facts.items() if k[0] == "call" and isinstance(v, ccp.Const) and isinstance(v.v, bool)
                        and lib.body(k[1]) is not None and lib.body(k[1]).sig_inputs == ["&" + EXPR] and lib.body(k[1]).sig_output == "bool"]
-            for h in grouped_children:
-                child = h.v
-                if isinstance(child, ccp.Call) and child.callee.endswith("to_string") and child.args:
-                    child = child.args[0]
-                ck = child.key()
-                lt_ok = [v for k, v in lt if k[2][2] == (ck,)]
-                sg = [v for k, v in singles if k[2] == (ck,)]
-                if lt_ok == [True] and sg == [False]:
-                    n_ok += 1
-                    ctx.ok("PRC-2", "%s|grouped|%s" % (b.path, ";".join("%s=%s" % kv for kv in l.label)), None, b.loc())
-                else:
-                    ctx.violation("PRC-2", (b.path, "grouped without need"), "a child is parenthesised on a path where `precedence(child) < precedence(parent)` is %s and "
-                                  "`child is a single code point` is %s (facts: %s)" % (lt_ok, sg, l.label), b.loc())
-            for h in plain_children:
-                child = h.v
-                if isinstance(child, ccp.Call) and child.callee.endswith("to_string") and child.args:
-                    child = child.args[0]
-                ck = child.key()
-                lt_c = [v for k, v in lt if k[2][2] == (ck,)]
-                sg = [v for k, v in singles if k[2] == (ck,)]
-                lt_any = [v for k, v in lt]
-                if not lt_c and not lt_any:
-                    continue   # a part that is not an operand (e.g. the quantifier)
-                if lt_c == [True] and sg == [False]:
-                    ctx.violation("PRC-2", (b.path, "missing group"), "a lower-precedence, multi-code-point child is printed without a group on path %s: the operator "
-                                  "would bind to only part of it" % (l.label,), b.loc())
-                elif lt_c in ([False],) or sg == [True]:
-                    n_ok += 1
-                    ctx.ok("PRC-2", "%s|plain|%s" % (b.path, ";".join("%s=%s" % kv for kv in l.label)), None, b.loc())
-                elif not lt_c and lt_any:
-                    # the comparison on this path is about something else than the printed child: crossed operands
-                    ctx.violation("PRC-2", (b.path, "comparison operands"), "the precedence comparison on this path does not compare the printed child with its parent: %s"
-                                  % ([str(k) for k, _ in lt][:2],), b.loc())
+            records.append((b, l, grouped_children, plain_children, lt, singles))
+    # the single-code-point predicate is the one consulted by most printers; any other predicate taking part in the decision is an extra condition
+    use = {}
+    for b, l, gc, pc, lt, singles in records:
+        for k, _ in singles:
+            use.setdefault(k[1], set()).add(b.path)
+    canonical = max(use, key=lambda k_: (len(use[k_]), k_)) if use else None
+
+    def child_key(h):
+        child = h.v
+        if isinstance(child, ccp.Call) and child.callee.endswith("to_string") and child.args:
+            child = child.args[0]
+        return child.key()
+    for b, l, grouped_children, plain_children, lt, singles in records:
+        for h in grouped_children:
+            ck = child_key(h)
+            lt_ok = [v for k, v in lt if k[2][2] == (ck,)]
+            sg = [v for k, v in singles if k[2] == (ck,) and k[1] == canonical]
+            if lt_ok == [True] and sg == [False]:
+                n_ok += 1
+                ctx.ok("PRC-2", "%s|grouped|%s" % (b.path, ";".join("%s=%s" % kv for kv in l.label)), None, b.loc())
+            else:
+                ctx.violation("PRC-2", (b.path, "grouped without need"), "a child is parenthesised on a path where `precedence(child) < precedence(parent)` is %s and "
+                              "`child is a single code point` is %s (facts: %s)" % (lt_ok, sg, l.label), b.loc())
+        for h in plain_children:
+            ck = child_key(h)
+            lt_c = [v for k, v in lt if k[2][2] == (ck,)]
+            sg = [v for k, v in singles if k[2] == (ck,) and k[1] == canonical]
+            extra = [(k[1], v) for k, v in singles if k[2] == (ck,) and k[1] != canonical]
+            lt_any = [v for k, v in lt]
+            if not lt_c and not lt_any:
+                continue   # a part that is not an operand (e.g. the quantifier)
+            if lt_c == [True] and sg == [False]:
+                ctx.violation("PRC-2", (b.path, "missing group"), "a lower-precedence, multi-code-point child is printed without a group%s on path %s: the operator "
+                              "would bind to only part of it (after a counted repetition `{n}` a following `?` even means 'lazy', not 'optional')"
+                              % ((" when " + " and ".join("%s is %s" % e for e in extra)) if extra else "", l.label), b.loc())
+            elif lt_c in ([False],) or sg == [True]:
+                n_ok += 1
+                ctx.ok("PRC-2", "%s|plain|%s" % (b.path, ";".join("%s=%s" % kv for kv in l.label)), None, b.loc())
+            elif not lt_c and lt_any:
+                # the comparison on this path is about something else than the printed child: crossed operands
+                ctx.violation("PRC-2", (b.path, "comparison operands"), "the precedence comparison on this path does not compare the printed child with its parent: %s"
+                              % ([str(k) for k, _ in lt][:2],), b.loc())
     ctx.floor("PRC-2", "grouping decisions on abstract paths", n_ok, 12)
 
 
